@@ -19,6 +19,9 @@ CHECKS = {
     "C34": dict(level="proof", technique=PROOF_TECH, design="DESIGN.md §5 C34",
                 text="every method of the _WeakInstanceDict container (add, replace, _add_unpresent, get, __getitem__, __contains__, contains_state, fast_get_state, safe_discard, _fast_discard, _manage_incoming/removed_state) is proved against a whole-map postcondition: add never overwrites a live different instance (raises, map unchanged), discards remove only the given state, every other key is untouched.",
                 note="weakref liveness constant during a call (GC-race arms proved unreachable sequentially); loading/Session.get paths and the database are outside the proof (bounded complement)"),
+    "C50": dict(level="proof", technique=PROOF_TECH, design="DESIGN.md §5 C50",
+                text="OrderingList._order_entity, reorder (loop invariant: prefix ordered), append, insert, pop, remove, __delitem__ are proved: the list-model postcondition on the sequence and the representation invariant position(self[i]) == ordering_func(i) restored, for lists of any length. Bounded complement: operation sequences on bound and un-instrumented OrderingLists and association proxies against list/set/dict models.",
+                note="ghost position field; entities distinct; __setitem__ / inherited list methods / proxies bounded only (several known findings)"),
     "C52": dict(level="proof", technique=PROOF_TECH, design="DESIGN.md §5 C52",
                 text="ScopedRegistry.__call__/has/set/clear are proved against the map view: the current scope's entry is returned or created exactly once, every other scope's entry and the key order are untouched.",
                 note="scopefunc pure within a call; thread interleavings rely on dict atomicity in CPython (assumed, stated); ThreadLocalRegistry and scoped_session wrappers not under proof"),
@@ -107,8 +110,12 @@ CHECKS.update({
              "the database round trip uses SQLite", "DESIGN.md §5 C36"),
     "_C38_bounded_only": B("InstrumentedList/Set and KeyFuncDict vs the builtin executed side by side (contents, return value, exception type, exactly the right append/remove events): every index and slice (bounds -5..5, steps -3..3), every method and operator x operand catalogue. Bounded exploration; proof kernel for the list index/slice arithmetic planned.",
              "events compared as multisets; user __eq__ not modelled", "DESIGN.md §5 C38"),
-    "C50": B("OrderingList representation invariant position(self[i]) == ordering_func(i) after every operation sequence <= 3 (quick) / 4 (thorough) over 21 operations (bound and un-instrumented class), association proxies vs list/set/dict models, flush + reload. Bounded exploration.",
+    "_C50_bounded_only": B("OrderingList representation invariant position(self[i]) == ordering_func(i) after every operation sequence <= 3 (quick) / 4 (thorough) over 21 operations (bound and un-instrumented class), association proxies vs list/set/dict models, flush + reload. Bounded exploration.",
              "SQLite for the persisted order", "DESIGN.md §5 C50"),
+    "C14": B("contract of sql/ddl.py::sort_tables_and_constraints evaluated on the real function for every FK graph on <= 3 (quick) / 4 (thorough) tables (0-2 constraints per ordered pair, named/unnamed, use_alter, 6 filter_fn variants, all input orders, explicit dependencies): tables are a permutation, every FK constraint is inline with its table or deferred, every inline FK's referred table comes earlier, use_alter/filtered constraints are deferred, cycles raise only when unbreakable; plus create_all/drop_all through mock engines (sqlite, postgresql) and on real SQLite with foreign_keys=ON. Bounded exploration (the function mixes tuple sets, exception attributes and generator arguments: outside the pyvc subset).",
+             "backends enforcing existence are modelled by a small catalog; PostgreSQL/MariaDB servers outside", "DESIGN.md §5 C14"),
+    "C31": B("run-time contract on Session.flush / UOWTransaction.execute: every flush of every operation sequence <= 2 (quick) / 3 (thorough) over 14 mappings on SQLite with immediate FK enforcement succeeds, and the recorded DML replayed on a shadow copy never leaves a dangling reference (parent before child, children before parent, association rows, self-referential order, post_update), and the database equals the object graph. Bounded exploration.",
+             "SQLite stands for 'a backend'; the proof kernel planned in DESIGN §5 C31 (UOWTransaction.execute vs declared dependencies) is not built: dependency.py's edge declarations are only exercised, not proved", "DESIGN.md §5 C31"),
     "C20": B("inverse-pair contract make_url(u.render_as_string(hide_password=False)) == u on the real URL functions over ~3e5 URLs (all strings <= 3 of an adversarial alphabet per component, interacting pairs, hosts/ports table). Bounded exploration.",
              "urllib.parse quote/unquote and re are CPython's; canonical query forms only", "DESIGN.md §5 C20"),
     "C23": B("ghost nested-transaction model evaluated after every step of every operation sequence <= 5 (quick) / 6 (thorough) over 20 Connection/Transaction operations on file-backed SQLite with an independent observer connection. Bounded exploration.",
